@@ -1162,16 +1162,16 @@ def replay_native(contract, gridpoint, inputs):
             if isinstance(exc, etype):
                 if bool(when(env)):
                     return True, detail
-                detail["expected"] = "no %s for these inputs" % etype.__name__
+                detail["expected"] = "no %s for these inputs" % _ename(etype)
                 return False, detail
         if isinstance(exc, contract.allow_exceptions):
             return True, detail
-        detail["expected"] = "no exception of this type (contract: %s)" % [e.__name__ for e, _ in contract.raises]
+        detail["expected"] = "no exception of this type (contract: %s)" % [_ename(e) for e, _ in contract.raises]
         return False, detail
     detail["observed"] = "returned %r" % (result,)
     for (etype, when) in contract.raises:
         if bool(when(env)):
-            detail["expected"] = "raise %s" % etype.__name__
+            detail["expected"] = "raise %s" % _ename(etype)
             return False, detail
     if contract.ensures:
         try:
